@@ -166,7 +166,8 @@ def _closure_env(fn: ast.FunctionDef, exact: bool) -> dict[str, ast.FunctionDef]
     return env
 
 
-def _filter_table(fdef: ast.FunctionDef, env: dict[str, ast.FunctionDef]) -> list[tuple[dict, Any, Any]]:
+def _filter_table(fdef: ast.FunctionDef, env: dict[str, ast.FunctionDef], prelude: list[ast.stmt] | None = None,
+                  exact: bool | None = None) -> list[tuple[dict, Any, Any]]:
     """Decision table of a filter closure; calls of sibling closures are evaluated in place (argument substitution)."""
     from ..dtree import bool_function
     from ..normalize import _Subst
@@ -192,7 +193,10 @@ def _filter_table(fdef: ast.FunctionDef, env: dict[str, ast.FunctionDef]) -> lis
             raise Unsupported(f"gather: closure {callee.name} undecided", callee)
         return NotImplemented
 
-    return bool_function(fdef.body, call_hook=hook)
+    # flags computed once in the enclosing function (`is_exact = bool(exact_type)`) are free variables of the closure
+    pre = list(prelude or [])
+    rows = bool_function(pre + fdef.body, call_hook=hook, resolve=True, preset=({"exact_type": exact} if exact is not None else None))
+    return [({k: v for k, v in a.items() if k != "exact_type"}, val, lf) for a, val, lf in rows]
 
 
 def check_gather(ck: Checker, f: Func, *, legacy: bool = False, rule: str = "R-GATHER") -> None:
@@ -212,7 +216,9 @@ def check_gather(ck: Checker, f: Func, *, legacy: bool = False, rule: str = "R-G
         p = d.args.args[0].arg
         node_expr = p if legacy else f"{p}.node"
         what = f"gather(exact_type={exact}): filter = " + ("type(node) in classes" if exact else "isinstance(node, classes)") + " and (extra_filter is None or extra_filter(info))"
-        rows = _filter_table(d, env)
+        prelude = [st for st in fn.body if isinstance(st, ast.Assign) and len(st.targets) == 1 and isinstance(st.targets[0], ast.Name)
+                   and st.lineno < d.lineno and any(isinstance(n, ast.Name) and n.id == "exact_type" for n in ast.walk(st.value))]
+        rows = _filter_table(d, env, prelude, exact)
         atoms = sorted({k for a_, _, _ in rows for k in a_})
         inst_key = next((a for a in atoms if a.startswith(f"isinstance({node_expr},")), None)
         exact_key = next((a for a in atoms if a.startswith(f"in(type({node_expr}),")), None)
